@@ -129,12 +129,14 @@ func (db *DB) DeleteChannels(chs []ChannelKey) (err error) {
 	// Do a pass first to remove all non-index channels
 	for _, ch := range chs {
 		udb, uok := db.mu.dbs.unary[ch]
-
-		if !uok || udb.Channel().IsIndex {
-			if udb.Channel().IsIndex {
-				indexChannels = append(indexChannels, ch)
-			}
+		if uok && udb.Channel().IsIndex {
+			indexChannels = append(indexChannels, ch)
 			continue
+		}
+		if !uok {
+			if _, vok := db.mu.dbs.virtual[ch]; !vok {
+				continue
+			}
 		}
 
 		err = db.removeChannel(ch)
